@@ -1121,6 +1121,11 @@ class TwoDSpectrumBase(DataSaveable):
         """Adds data to the cell of the storage given by dtype and tag
         
         """
+        # what is added has the shape of the spectrum: the sum with data 
+        # already stored would broadcast anything else into them
+        if numpy.shape(data) != (self.xaxis.length, self.yaxis.length):
+            raise Exception("Data not consistent with spectrum axes")
+
         if not self.storage_initialized:
             self._d__data = {}
             self.storage_initialized =  True
